@@ -101,6 +101,9 @@ type Config struct {
 	BlockMaxGas    int64  `json:"block_max_gas"`
 	// block time
 	BlockSec int64 `json:"block_s"`
+	// ProposerAny lets the stub pick any member of the validator set as proposer, including
+	// one the application can no longer resolve (known finding K1); otherwise it is avoided
+	ProposerAny bool `json:"proposer_any,omitempty"`
 }
 
 // Actor keys: all derived from the seed.
